@@ -1109,15 +1109,17 @@ trait_property_changed(
         return -1;
     }
 
+    /* The trait is kept alive until its notifier list has been used:
+       computing the new value can run arbitrary Python code. */
     tnotifiers = trait->notifiers;
     onotifiers = obj->notifiers;
-    Py_DECREF(trait);
 
     if (has_notifiers(tnotifiers, onotifiers)) {
         null_new_value = (new_value == NULL);
         if (null_new_value) {
             new_value = has_traits_getattro(obj, name);
             if (new_value == NULL) {
+                Py_DECREF(trait);
                 return -1;
             }
         }
@@ -1130,6 +1132,7 @@ trait_property_changed(
         }
     }
 
+    Py_DECREF(trait);
     return rc;
 }
 
